@@ -2,7 +2,7 @@
    are ObjModel.attach / ObjModel.attach_has: for every heap, contract kind, validator / patcher object and function object. *)
 From Coq Require Import List ZArith Bool String.
 Import ListNotations.
-Require Import Base Prog Sig Interp Model ObjModel AttachCode Attach.
+Require Import Base Prog Sig Interp Model ObjModel AttachCode Attach PatchBracket.
 
 Theorem exec_attach_is_attach k v h func :
   exec_attach (a_attach code) false k v h func None = Some (attach k v h func).
@@ -20,3 +20,16 @@ Qed.
 Theorem exec_attach_removed k v h func :
   exec_attach (a_attach code) true k v h func None = Some (h, func) /\ exec_attach (a_attach_has code) true k v h func None = Some (h, func).
 Proof. split; reflexivity. Qed.
+
+(* finding C09-F1 (and C12-F1, its consequence for dispatch) on the model, for EVERY heap: a validator object attached to a second
+   function names that second function -- whatever it was attached to before *)
+Theorem shared_validator_function_overwritten k v h g :
+  nlookup v (h_vfun (fst (attach k v h g))) = Some (r_func (get_reg (fst (ensure_wrapped h g)) (snd (ensure_wrapped h g)))).
+Proof.
+  unfold attach. destruct (ensure_wrapped h g) as [h1 r]. cbn [fst snd]. unfold upd_reg, set_vfun. cbn [h_vfun].
+  apply nlookup_nupd_same.
+Qed.
+Corollary second_attach_forgets_the_first k v h f g :
+  nlookup v (h_vfun (fst (attach k v (fst (attach k v h f)) g)))
+  = Some (r_func (get_reg (fst (ensure_wrapped (fst (attach k v h f)) g)) (snd (ensure_wrapped (fst (attach k v h f)) g)))).
+Proof. apply shared_validator_function_overwritten. Qed.
